@@ -257,6 +257,23 @@ def check(recipe) -> list[Fail]:
                     cf.atoms[j].label = f"W{step}"
                     if ens.atoms[j].label != f"W{step}":
                         return [Fail("write-through-conformer-atom-not-visible-in-ensemble", f"step {step}")]
+            elif name == "orphan":
+                # conformers that outlive every other reference to their ensemble (slice of a temporary copy, unpickled conformer):
+                # they keep working and show the rows they were taken from
+                if nc == 0:
+                    continue
+                import gc
+                i0 = op[1] % nc
+                tmp_cfs = ml.ConformerEnsemble(ens)[i0:i0 + 2]
+                one = pickle.loads(pickle.dumps(ens[i0]))
+                gc.collect()
+                for k_, cf_ in enumerate(list(tmp_cfs) + [one]):
+                    row = i0 + k_ if k_ < len(tmp_cfs) else i0
+                    if not np.array_equal(np.asarray(cf_.coords, dtype=float), model.coords[row], equal_nan=True):
+                        return [Fail("orphaned-conformer-does-not-show-its-row", f"step {step}: row {row}")]
+                    if na and np.all(np.isfinite(model.coords[row])):
+                        cf_.dumps_xyz()
+                    cf_.coords[...] = 0.0      # writing into the orphan must not reach the live ensemble
             elif name == "use_held":
                 # a conformer handle taken EARLIER (before later appends / extends / transformations) is used now: still row i, live
                 if not held or na == 0:
@@ -359,6 +376,16 @@ def check(recipe) -> list[Fail]:
                     if np.shape(g_) != np.shape(e_) or not np.array_equal(np.asarray(g_, dtype=float), np.asarray(e_, dtype=float), equal_nan=True):
                         return [Fail(f"serialised-ensemble-differs:{via}:{nm}", f"step {step}: shape {np.shape(g_)} vs {np.shape(e_)}")]
                 name = f"serialise[{via}]"
+                if len(op) > 2 and op[2]:
+                    held.clear()
+                    # the history goes on with the object that came BACK (a reloaded ensemble is an ensemble like any other)
+                    ens = back
+                    if f32:
+                        model.coords = np.asarray(chem.arr_f32(model.coords), dtype=float).reshape(model.coords.shape)
+                        model.charges = np.asarray(chem.arr_f32(model.charges), dtype=float).reshape(model.charges.shape)
+                        model.weights = np.asarray(chem.arr_f32(model.weights), dtype=float).reshape(model.weights.shape)
+                    src_qw = None
+                    name += "+continue"
             else:
                 raise HarnessError(f"unknown op {name}")
         except HarnessError:
@@ -417,8 +444,9 @@ def strat(tier):
         st.tuples(st.sampled_from(["write_coord", "write_coords_setter", "write_charge", "write_atom_field", "use_held"]), i, i, f).map(list),
         st.tuples(st.just("iterate"), st.sampled_from(["plain", "nested", "interleaved", "zip", "break_then_full"])).map(list),
         st.tuples(st.just("slice"), i, i).map(list),
+        st.tuples(st.just("orphan"), i).map(list),
         st.tuples(st.just("dump"), st.sampled_from(["xyz", "mol2"])).map(list),
-        st.tuples(st.just("serialise"), st.sampled_from(["codec", "pickle", "library"])).map(list),
+        st.tuples(st.just("serialise"), st.sampled_from(["codec", "pickle", "library"]), st.booleans()).map(list),
     )
     return st.fixed_dictionaries({
         "construct": st.sampled_from(["recipe", "recipe", "from_ensemble", "from_molecule", "from_molecule_list", "n_only", "elements"]),
